@@ -15,7 +15,7 @@ func init() {
 	Props["C17"] = Prop{
 		Title: "zapio.Writer logs exactly the lines of the byte stream, however it is chunked",
 		Fn:    checkC17,
-		Explanation: "The core claim (all streams × all partitions) is a statement about runtime values and is NOT decided. Decided are its structural necessary conditions: Write reports len of the original parameter with a nil error on every path and its loop feeds writeLine's result back until empty; writeLine returns nil (after buffering the whole fragment) or the strict suffix after the first newline; nothing is buffered or logged unless the level is enabled; the direct-log fast path is taken only when nothing is buffered, otherwise the fragment is appended before the flush; flush(true) comes only from writeLine and flush(false) only from Sync, Close is Sync; flush logs iff allowEmpty or something is buffered and always resets the buffer afterwards; the writer copies what it keeps (bytes.Buffer.Write / string conversion) and never stores the caller's slice. " +
+		Explanation: "The core claim (all streams × all partitions) is a statement about runtime values and is NOT decided. Decided are its structural necessary conditions: Write reports len of the original parameter with a nil error on every path and its loop feeds writeLine's result back until empty; writeLine splits at the first newline (bytes.IndexByte(line,'\\n') with line[:i] / line[i+1:], or bytes.Cut(line, <constant \"\\n\">) - the split is modelled, not matched textually) and returns nil (after buffering the whole fragment) or the strict suffix after that newline; nothing is buffered or logged unless the level is enabled; the direct-log fast path is taken only when nothing is buffered, otherwise the fragment is appended before the flush; flush(true) comes only from writeLine and flush(false) only from Sync, Close is Sync; flush logs iff allowEmpty or something is buffered and always resets the buffer afterwards; the writer copies what it keeps (bytes.Buffer.Write / string conversion) and never stores the caller's slice. " +
 			"NOT decided: equality of the logged messages with the stream's lines for all partitions.",
 		Assumptions: commonAssumptions,
 	}
